@@ -22,6 +22,7 @@ RULE = ('histories (8–45 ops) over 1–3 real streams (single- and multi-phase
         'imol/imass/ivol.get_data/set_data(units), get_property/set_property(F_*, units) and indexer constructors with units= '
         '(unit strings drawn from all flow units, so mostly of another dimension than the view; each case starts from cold '
         'unit memos and many first convert legitimately to the same units string), '
+        'reset_flow (single and multi-phase; every unit dimension or none; with / without phase(s) change and total_flow), '
         'whole-view assignment (s.mass = o.mass, s.vol = o.vol, ivol.data.copy_like(o.vol), imass[phase] = row / ndarray) '
         'between streams of different T / P / phase, get/set_total_flow in kmol/hr, mol/s, kg/hr, lb/hr, g/min, m3/hr, L/min, gal/min (+ non-flow units), '
         'on originals, phase views ms[phase], proxy() and flow_proxy() objects, interleaved with T, P, phase, phases, link_with (8 flag combinations), unlink, copy_like, _reset_thermo, '
@@ -132,7 +133,7 @@ def dimvec(d):
 
 
 def budget(tier):
-    return {'quick': dict(seconds=70, cases=1500, shrink_s=20, search_s=5),
+    return {'quick': dict(seconds=70, cases=2300, shrink_s=20, search_s=5),
             'thorough': dict(seconds=480, cases=12000, shrink_s=40, search_s=20)}[tier]
 
 
@@ -729,6 +730,96 @@ def run_ops(ops):
                 fail('dimension_guard:view-units', f'{cls.__name__}(units={u!r}) was accepted although {u!r} is not a '
                      f'{dim} flow unit (data {val!r})')
             emit(f'unitfor {dim} {u}', err or f'x - {fbits(1. / val)}')
+        elif op == 'resetflow':
+            # Stream.reset_flow(phase=, units=, total_flow=, **flows) / MultiStream.reset_flow(total_flow=, units=, phases=,
+            # **phase_flows): ONE call on the real object; the model sees the calls it is documented to be made of
+            # (empty, phase(s) setter, set_flow of the given flows, set_total_flow)
+            sid = S(t[1]); s = w.streams[sid]
+            PH, U, TOT = t[2], t[3], t[4]
+            U = None if U == '-' else U
+            TOT = None if TOT == '-' else float(TOT)
+            if U is not None and UNIT_DIM[U] == 'other': return
+            n = len(s.chemicals.IDs)
+            groups = []
+            for g in (t[5].split(';') if len(t) > 5 and t[5] != '-' else []):
+                phsel, ii, xx = g.split(':')
+                idx = sorted({int(x) % n for x in ii.split(',')})
+                xs = [float(x) for x in xx.split(',')]; xs = (xs * len(idx))[:len(idx)]
+                groups.append((int(phsel), idx, xs))
+            dim = UNIT_DIM[U] if U else 'mol'
+            multi = is_multi(s)
+            if multi:
+                if U is None: return                      # MultiStream.reset_flow needs units for its set_flow calls
+                seen, kw = set(), {}
+                if PH != '-':
+                    newph = ''.join(sorted(set(PH)))
+                    if len(newph) < 2: return
+                    for phsel, idx, xs in groups:
+                        ph = newph[phsel % len(newph)]
+                        if ph not in seen: seen.add(ph); kw[ph] = (idx, xs)
+                else:
+                    for phsel, idx, xs in groups:
+                        ph = s.phases[phsel % len(s.phases)]
+                        if ph not in seen: seen.add(ph); kw[ph] = (idx, xs)
+                    newph = ''.join(sorted(set('lg') | set(kw)))     # phases=None: set(phase_flows) ∪ {'l', 'g'}
+                old_shape = shape_ans(s)
+                call = lambda: s.reset_flow(total_flow=TOT, units=U, phases=(tuple(newph) if PH != '-' else None),
+                                            **{ph: [(s.chemicals.IDs[i], x) for i, x in zip(idx, xs)] for ph, (idx, xs) in kw.items()})
+            else:
+                if PH != '-': PH = PH[0]
+                if locked(s) and PH != '-': return      # the phase of a phase view is its parent's business
+                groups = groups[:1]
+                kw = {'-': (groups[0][1], groups[0][2])} if groups else {}
+                old_shape = shape_ans(s)
+                call = lambda: s.reset_flow(phase=(PH if PH != '-' else None), units=U, total_flow=TOT,
+                                            **({s.chemicals.IDs[i]: x for i, x in zip(*kw['-'])} if kw else {}))
+            try:
+                call(); err = None
+            except AttributeError:
+                err = 'err UndefinedComposition'
+            mark_change(sid, 'reset_flow')
+            # the equivalent model lines (molar volumes at the phase the stream has now)
+            emit(f'empty {sid}', old_shape)
+            if multi:
+                emit(f'setphases {sid} {newph} {mat([[0.0] * n for _ in newph])}', f'ok 1 {newph}')
+            elif PH != '-':
+                emit(f'setphase {sid} {PH} _', f'ok 0 {PH}')
+            V = vtok(s, dim == 'vol')
+            vt = w.vnum(indexer(s, dim)) if (kw and dim != 'mol') else '-'     # only set_flow goes through a view
+            for ph, (idx, xs) in kw.items():
+                for i, x in zip(idx, xs):
+                    if U: emit(f'setflow {sid} {U} {ph} {i} {frac(x)} {V}', f'w {vt}')
+                    else: emit(f'put {sid} mol {ph} {i} {frac(x)} _', 'w -')
+            if TOT:
+                if U: emit(f'settotal {sid} {U} {frac(TOT)} {V}', err or 'ok')
+                else: emit(f'wrF {sid} mol {frac(TOT)} _', err or 'ok')
+            w.last_set = None
+            # oracle: what reset_flow was given reads back, in the units it was given, at the phase it was given
+            if err is None:
+                if not multi and PH != '-' and s.phase != PH:
+                    fail('reset_flow:phase', f'stream {sid}: reset_flow(phase={PH!r}) left the phase {s.phase!r}')
+                uu = U or 'kmol/hr'
+                given = {}
+                for ph, (idx, xs) in kw.items():
+                    key = tuple(s.chemicals.IDs[i] for i in idx) if ph == '-' else (ph, tuple(s.chemicals.IDs[i] for i in idx))
+                    back = [float(v) for v in np.asarray(s.get_flow(uu, key), dtype=float).ravel()]
+                    given[ph] = (xs, back)
+                tot_given = sum(sum(xs) for xs, _ in given.values())
+                scale = (TOT / tot_given) if (TOT and tot_given) else 1.0
+                for ph, (xs, back) in given.items():
+                    exp = [x * scale for x in xs]
+                    if not rows_close([back], [exp]):
+                        fail('reset_flow:readback', f'stream {sid}: reset_flow(phase/phases={PH}, units={U}, total_flow={TOT}, '
+                             f'{ph}: {xs}) reads back {back} in {uu}, expected {exp} (stream now at {phases_of(s)})')
+                if TOT:
+                    got = float(s.get_total_flow(uu))
+                    if not close(got, TOT, RTOL, 1e-9):
+                        fail('reset_flow:total', f'stream {sid}: reset_flow(total_flow={TOT}, units={U}) gives a total of {got!r}')
+                total_all = float(s.get_total_flow(uu))
+                exp_all = TOT if TOT else tot_given
+                if not close(total_all, exp_all, RTOL, 1e-9):
+                    fail('reset_flow:leftover', f'stream {sid}: after reset_flow the total in {uu} is {total_all!r}, the given flows '
+                         f'sum to {exp_all!r} (something survived the reset)')
         elif op in ('getflow', 'setflow'):
             sid = S(t[1]); s = w.streams[sid]; u = t[2]
             ph, i, key = key_of(s, t[3], t[4])
@@ -1077,8 +1168,21 @@ def gen_view_units(rng, o, write):
     return f'getdata {o} {dim} {u} {rng.randrange(3)} {rng.randrange(5)}' if r < 0.6 else f'getprop {o} {dim} {u}'
 
 
+def gen_resetflow(rng, o):
+    """reset_flow with every unit dimension (or none), with / without a phase (set) change, with / without total_flow"""
+    PH = rng.choice(['-', '-', 'l', 'g', 's', 'gl', 'gls', 'Ll'])
+    U = rng.choice(FLOW_UNITS + ['-', '-'])
+    TOT = rng.choice(['-', '-', 5, 20.5, 0.75])
+    ng = rng.choice([1, 1, 2])
+    spec = ';'.join(f'{rng.randrange(3)}:{rng.randrange(5)},{rng.randrange(5)}:{rng.choice(XS[1:])},{rng.choice(XS[1:])}'
+                    for _ in range(ng)) if rng.random() < 0.9 else '-'
+    return f'resetflow {o} {PH} {U} {TOT} {spec}'
+
+
 def gen_write(rng, o):
     r = rng.random()
+    if r < 0.07:
+        return [gen_resetflow(rng, o), f'obs {o}']
     if r < 0.12:
         # the same units string first through the right view (legitimate), then on the views of the other dimensions
         u = rng.choice(FLOW_UNITS); ph, i = rng.randrange(3), rng.randrange(5)
@@ -1216,6 +1320,17 @@ def grid():
                 for legit in (f'getflow 0 {u} 0 1', f'gettotal 0 {u}', None):
                     out.append(Case(['new1 0 l 298.15 101325.0 1,2,0,0.5'] + ([legit] if legit else []) + [entry, 'obs 0'],
                                     {'grid': 'view-units'}))
+    for u in FLOW_UNITS + ['-']:
+        for ph in ('-', 'l', 'g'):
+            for tot in ('-', '20.5'):
+                for pre in (0, 1):
+                    out.append(Case(['new1 0 l 298.15 101325.0 1,2,0,0.5'] + (['obs 0'] if pre else []) +
+                                    [f'resetflow 0 {ph} {u} {tot} 0:0,1:3,7', 'obs 0'], {'grid': 'reset_flow'}))
+        if u != '-':
+            for phs in ('-', 'gl', 'gls'):
+                for tot in ('-', '20.5'):
+                    out.append(Case(['newm 0 gl 320.0 101325.0 1,2,0,0.5|0,1,3,0', 'obs 0',
+                                     f'resetflow 0 {phs} {u} {tot} 0:0,1:3,7;1:2:1.5', 'obs 0'], {'grid': 'reset_flow'}))
     for u in OTHER_UNITS:
         out.append(Case(['new1 0 l 298.15 101325.0 1,2,0,0.5', f'getflow 0 {u} 0 0', f'setflow 0 {u} 0 0 1.5',
                          f'gettotal 0 {u}', f'settotal 0 {u} 2', 'obs 0'], {'grid': 'dimension'}))
